@@ -9,51 +9,90 @@ import EaselModel.Msafile.Phylip
 import EaselModel.Msafile.Selex
 import EaselModel.Msafile.Stockholm
 import EaselModel.Msafile.Dump
-/-! Line-protocol driver for the C01 model: `parse fmt=… abc=… src=… ps=… hex=…` (source and page size are irrelevant
-    to the model: it sits on the abstract line reader).  Formats / modes without a model answer `unmodelled`. -/
+import EaselModel.Msafile.Guess
+/-! Line-protocol driver for the C01 model: `parse fmt=… abc=… src=… ps=… [sfx=…] hex=…`.  The page size is irrelevant to the
+    model (it sits on the abstract line reader); the source only decides whether the buffer has a file name
+    (`esl_msafile_Open`: `h_msafile_<pid>.<sfx>`; memory and streams have none), which format autodetection looks at.
+    Everything goes through `openModel` (= `msafile_OpenBuffer`): declared or autodetected format, text mode, supplied or
+    guessed alphabet; then the resolved reader is run until a non-OK outcome. -/
 open EaselModel.Proto EaselModel.Msafile
 
-def abcOf (s : String) : Option (Option Abc) :=
-  if s == "text" then some none
-  else if s == "amino" then some (some abcAmino)
-  else if s == "dna" then some (some abcDna)
-  else if s == "rna" then some (some abcRna)
+def fmtSelOf (s : String) : Option FmtSel :=
+  if s == "auto" then some .auto
+  else if s == "afa" then some (.decl .afa)
+  else if s == "a2m" then some (.decl .a2m)
+  else if s == "clustal" then some (.decl .clustal)
+  else if s == "clustallike" then some (.decl .clustallike)
+  else if s == "psiblast" then some (.decl .psiblast)
+  else if s == "phylip" then some (.decl .phylip)
+  else if s == "phylips" then some (.decl .phylips)
+  else if s == "selex" then some (.decl .selex)
+  else if s == "stockholm" then some (.decl .stockholm)
+  else if s == "pfam" then some (.decl .pfam)
   else none
 
-def abcName (a : Option Abc) : String :=
+def fmtName (f : Fmt) : String :=
+  match f with
+  | .stockholm => "stockholm" | .pfam => "pfam" | .a2m => "a2m" | .psiblast => "psiblast" | .selex => "selex"
+  | .afa => "afa" | .clustal => "clustal" | .clustallike => "clustallike" | .phylip => "phylip" | .phylips => "phylips"
+
+def abcSelOf (s : String) : Option AbcSel :=
+  if s == "text" then some .text
+  else if s == "amino" then some (.given .amino)
+  else if s == "dna" then some (.given .dna)
+  else if s == "rna" then some (.given .rna)
+  else if s == "guess" then some .guess
+  else none
+
+def abcName (a : Option AbcType) : String :=
   match a with
   | none => "text"
-  | some x => if x.type == 3 then "amino" else if x.type == 2 then "dna" else "rna"
+  | some .amino => "amino"
+  | some .dna => "dna"
+  | some .rna => "rna"
+
+/-- `bf->filename` as the harness makes it: only `esl_msafile_Open` (file, slurped file, mmap) has one -/
+def fileNameOf (ws : List String) : Option Bytes :=
+  let src := (arg? ws "src").getD "mem"
+  if src == "file" || src == "allfile" || src == "mmap" then
+    some ([104, 95, 109, 115, 97, 102, 105, 108, 101, 95, 48, 46] ++ ((arg? ws "sfx").getD "dat").toUTF8.toList)
+  else none
 
 def parseOp (ws : List String) : String :=
-  match arg? ws "fmt", abcOf ((arg? ws "abc").getD "text"), argHex? ws "hex" with
-  | some fmt, some abc, some bytes =>
+  match (arg? ws "fmt").bind fmtSelOf, abcSelOf ((arg? ws "abc").getD "text"), argHex? ws "hex" with
+  | some fs, some as, some bytes =>
     let lines := splitLines bytes
-    if fmt == "afa" then
-      "open=ok fmt=afa abc=" ++ abcName abc ++ readAll (afaRead (afaCfg abc)) 64 lines
-    else if fmt == "a2m" then
-      "open=ok fmt=a2m abc=" ++ abcName abc ++ readAll (a2mRead (a2mCfg abc)) 64 lines
-    else if fmt == "clustal" then
-      "open=ok fmt=clustal abc=" ++ abcName abc ++ readAll (clustalRead false (clustalCfg abc)) 64 lines
-    else if fmt == "clustallike" then
-      "open=ok fmt=clustallike abc=" ++ abcName abc ++ readAll (clustalRead true (clustalCfg abc)) 64 lines
-    else if fmt == "psiblast" then
-      "open=ok fmt=psiblast abc=" ++ abcName abc ++ readAll (psiblastRead (psiblastCfg abc)) 64 lines
-    else if fmt == "phylip" then
-      "open=ok fmt=phylip abc=" ++ abcName abc ++ readAll (phylipRead false (phylipCfg abc)) 64 lines
-    else if fmt == "phylips" then
-      "open=ok fmt=phylips abc=" ++ abcName abc ++ readAll (phylipRead true (phylipCfg abc)) 64 lines
-    else if fmt == "selex" then
-      "open=ok fmt=selex abc=" ++ abcName abc ++ readAll (selexRead (selexCfg abc)) 64 lines
-    else if fmt == "stockholm" || fmt == "pfam" then
-      "open=ok fmt=" ++ fmt ++ " abc=" ++ abcName abc ++ readAll (stockholmRead (stockholmCfg abc)) 64 lines
-    else "unmodelled"
+    match openModel fs as (fileNameOf ws) lines with
+    | .enoformat => "open=enoformat"
+    | .enoalphabet => "open=enoalphabet"
+    | .fault => "fault"
+    | .ok o => "open=ok fmt=" ++ fmtName o.fmt ++ " abc=" ++ abcName o.abc ++ readAll o.read 64 lines
   | _, _, _ => "unmodelled"
+
+/-- coverage probe (model side only; the harness has no such op): which deep checks say what -/
+def probeOp (ws : List String) : String :=
+  match argHex? ws "hex" with
+  | some bytes =>
+    let lines := splitLines bytes
+    let first := match lines.dropWhile isBlankLine with
+      | [] => "none"
+      | p :: _ => match fmtByFirstLine p with
+        | .stockholm => "stockholm" | .afa => "afa" | .clustal => "clustal" | .clustallike => "clustallike" | .phylip => "phylip" | .unknown => "unknown"
+    let ilv := match checkInterleaved lines with
+      | none => "none"
+      | some (nb, w) => toString nb ++ "," ++ toString w
+    let su := match checkSeqUnknown lines with
+      | .ok w => "ok," ++ toString w
+      | .fail => "fail"
+      | .fault => "fault"
+    "first=" ++ first ++ " ilv=" ++ ilv ++ " sk=" ++ toString (checkSeqKnown 10 lines) ++ " su=" ++ su ++ " slx=" ++ toString (checkSelex lines)
+  | none => "unmodelled"
 
 def step (s : Unit) (line : String) : Unit × String :=
   let ws := words line
   match ws with
   | "parse" :: _ => (s, parseOp ws)
+  | "probe" :: _ => (s, probeOp ws)
   | _ => (s, "unmodelled")
 
 def main : IO Unit := runDriver () step
